@@ -34,6 +34,10 @@ class VUnit:
         self.kind = "proof"
         self.engine = "verus"
         self.statement = head.get("statement", "")
+        # known-finding witness unit: the contract is taken from the property and FAILS on the unchanged tree at
+        # exactly one recorded call site (`known_at` = text of the line Verus reports); any other failure is a violation
+        self.known = head.get("known", "")
+        self.known_at = head.get("known_at", "")
 
 
 def kv(s):
@@ -382,7 +386,7 @@ def run_units(units, tier, log=None):
         rec = {"unit": u.id, "engine": "verus", "kind": "proof", "fns": u.fns, "file": "", "verdict": "undecided",
                "reason": "", "checks": 0, "time_s": 0.0, "failed_checks": [], "raw": "", "extraction": b["log"],
                "canaries": 0, "canaries_rejected": 0, "assumptions": [], "trusted": [], "statement": u.statement,
-               "bound": "", "known": ""}
+               "bound": "", "known": u.known}
         records[u.id] = rec
         if b["errors"]:
             rec["reason"] = "; ".join(b["errors"])[:600]
@@ -435,7 +439,9 @@ def run_units(units, tier, log=None):
                     rec["reason"] = f"vacuity guard: canary not rejected for {missing[:6]} (contradictory precondition or canary run failed)"
                     rec["raw"] = err2[-3000:]
                     continue
-            rec["verdict"] = "verified"
+            rec["verdict"] = "known-absent" if u.known else "verified"
+            if u.known:
+                rec["reason"] = "witness obligation verifies (finding no longer present)"
             rec["checks"] = n_ok + rec["canaries_rejected"]
             continue
         # failure: definite verdict or not?
@@ -453,4 +459,12 @@ def run_units(units, tier, log=None):
             fn = enclosing_fn(b["text"], e["line"] or 1)
             rec["failed_checks"].append({"description": e["msg"], "location": f"{os.path.basename(main_path)}:{e['line']} in fn {fn}"})
         rec["reason"] = "; ".join(f"{c['description']} [{c['location']}]" for c in rec["failed_checks"][:4])
+        if u.known and u.known_at:
+            tl = b["text"].split("\n")
+            at_site = [e for e in definite if e["msg"].startswith("precondition not satisfied") and e["line"]
+                       and u.known_at in tl[e["line"] - 1]]
+            if len(at_site) == len(definite) and len(at_site) == 1:
+                rec["verdict"] = "known-present"
+                rec["checks"] = 1
+                rec["reason"] = f"recorded finding {u.known}: the only failing obligation is the precondition at `{u.known_at}` [{rec['failed_checks'][0]['location']}]"
     return records
